@@ -82,7 +82,7 @@ def known_class(kid, case, obs, prof):
     return bool(f) and f in L.parse_spec(case)['flags']
 
 
-LEVEL_TEXT = ('Coq theorems over the abstract loader model, universally quantified over histories: the merge loop keeps the '
+LEVEL_TEXT = ('END TO END ON BYTES for histories written with classic tables (coq/Properties/C04b.v, built by this check): C04_bytes_classic (load_bytes of the rendered history = exactly resolve_h, newest root), C04_bytes_update (the updated file = the old file, in any other layout, overridden by the update), C04_bytes_prev_cycle/_oob (=> Rejected).  Coq theorems over the abstract loader model, universally quantified over histories: the merge loop keeps the '
               'newest entry per object number (C04_merge_newest_first / _lookup); for every chain of sections (tables, xref '
               'streams, hybrids in any mix; objects in the file or in object streams; direct or referenced /Length) load binds '
               'every identifier to resolve = the entry of the most recent revision that mentions the number, free => undefined, '
